@@ -83,7 +83,11 @@ Print Assumptions C34_ready_never_before.
    cas_step_obs / mrsw_step_obs / rt_step, on the fields both sides have, the returned observation,
    the wait-sets after the reported cond.Broadcast() calls and the channels closed by the reported close() calls.  Premise: the package's
    error constructor never returns nil (fmt.Errorf is known not to). *)
-From RQ Require Import Lib.GoLib Gen.Cas Gen.Mrsw Gen.ReadyTarget Proofs.C34_Gen.
+From RQ Require Import Lib.GoLib.
+From RQ Require Import Gen.Cas.
+From RQ Require Import Gen.Mrsw.
+From RQ Require Import Gen.ReadyTarget.
+From RQ Require Import Proofs.C34_Gen.
 Theorem C34_source_derived_eq : forall (E : Type) (now : Z) (errorf : string -> E)
     (mkerr : string -> option E) (sprintf : string -> Z -> string),
   (forall m, mkerr m <> None) ->
